@@ -1815,6 +1815,10 @@ class Data(BaseCartesianData):
                         # then also take into account the subarray slices in this
                         # case.
                         mask = mask[subarray_slices]
+                    else:
+                        # The full (viewed) mask and data are used, so the
+                        # result must not be padded out below.
+                        subarray_slices = None
 
                     data = self.get_data(cid, view)
 
@@ -1868,15 +1872,17 @@ class Data(BaseCartesianData):
             # only the result within the view is returned.
             if not isinstance(axis, tuple):
                 axis = (axis,)
-            result_slices = tuple([subarray_slices[idim] for idim in range(self.ndim) if idim not in axis])
+            # Note that the mask can have fewer dimensions than the data if
+            # the view contains integers.
+            result_slices = tuple([subarray_slices[idim] for idim in range(len(subarray_slices)) if idim not in axis])
 
             if chunk_view is None:
                 full_shape = [self.shape[idim] for idim in range(self.ndim) if idim not in axis]
             else:
                 chunk_shape = subset_state.to_mask(self, chunk_view).shape
-                full_shape = [chunk_shape[idim] for idim in range(self.ndim) if idim not in axis]
+                full_shape = [chunk_shape[idim] for idim in range(len(chunk_shape)) if idim not in axis]
 
-            full_result = np.zeros(full_shape) * np.nan
+            full_result = np.full(full_shape, np.nan)
             full_result[result_slices] = result
             return full_result
 
